@@ -429,7 +429,8 @@ Expected == /\ (stage = 2 /\ inst.fam \in {"dimer", "ferro", "mg", "chain2"}) =>
      V1  max |psi.norm_test()| ~ 0          V2  E_reported = H_MPO.expectation_value(psi) (energy per site)
      V3  E_reported >= e0 - tol             V4  (converged runs) E_reported = e0
      (twisted instances: H is the complex H' built with the phases i^(tw[i]-tw[j]); v is the complex vector vc)
-     P5  two-site engine, mixer on, bond dimension not truncated, enough sweeps, conn (otherwise H has further
+     P6  the run performs at most max_sweeps + N_sweeps_check sweeps (stopping_criterion: `sweeps > max_sweeps`)
+     P5  two-site engine (evaluated for the single-site engine with a mixer as well), mixer on, bond dimension not truncated, enough sweeps, conn (otherwise H has further
          conserved quantities and a product state need not be connected to the ground state at all), and the
          start state is not orthogonal to v (v[s0] # 0; a Krylov eigensolver started in another symmetry sector of H,
          e.g. of a site permutation commuting with H, can never leave it) unless the local eigensolver is ED_block:
